@@ -43,7 +43,7 @@ func runC14(res *lib.Result, tier string, seed int64, args []string) error {
 	if tier == "thorough" {
 		nProg, nPos = 2500, 10
 	}
-	res.Rule = "generated programs with uniquely named declarations sharing a few prefixes; a statement 'local zq = <prefix>' is inserted at a random statement boundary of any block and textDocument/completion is asked at the end of the prefix: (1) every local/parameter/loop variable visible there under S-bind whose name starts with the prefix is offered, and every workspace global with the prefix; (2) the locals offered = the model of GetCompleteVar (position-based), and none is declared later or in a block that does not enclose the cursor, except class K1 (the variable being declared by the statement under the cursor); non-trivial = at least one visible local has the prefix; distinct by (program, position, prefix)"
+	res.Rule = "generated programs with uniquely named declarations sharing a few prefixes; a statement 'local zq = <prefix>' is inserted at a random statement boundary of any block (a third of the time on the same line as the block's closing keyword, so that the cursor is on the last line of the block) and textDocument/completion is asked at the end of the prefix: (1) every local/parameter/loop variable visible there under S-bind whose name starts with the prefix is offered, and every workspace global with the prefix; (2) the locals offered = the model of GetCompleteVar (position-based), and none is declared later or in a block that does not enclose the cursor, except class K1 (the variable being declared by the statement under the cursor); non-trivial = at least one visible local has the prefix; distinct by (program, position, prefix)"
 	drv, err := lib.StartDriver()
 	if err != nil {
 		return err
@@ -86,8 +86,24 @@ func runC14(res *lib.Result, tier string, seed int64, args []string) error {
 			ins := indent + "local zq = " + prefix
 			var nl []string
 			nl = append(nl, lines[:at]...)
-			nl = append(nl, ins)
-			nl = append(nl, lines[at:]...)
+			rest := lines[at:]
+			// every third time the cursor line is also the LAST line of the block: the closing keyword
+			// ('end', 'until …', 'else', 'elseif …') follows on the same line
+			if at < len(lines) && r.Chance(1, 3) {
+				t := strings.TrimSpace(lines[at])
+				if t == "end" || strings.HasPrefix(t, "until ") || t == "else" || strings.HasPrefix(t, "elseif ") || strings.HasPrefix(t, "end)") {
+					nl = append(nl, ins+" "+t)
+					rest = lines[at+1:]
+					res.Dist("cursor.on-last-line-of-block")
+					ins = ""
+				}
+			}
+			if ins != "" {
+				nl = append(nl, ins)
+			} else {
+				ins = indent + "local zq = " + prefix
+			}
+			nl = append(nl, rest...)
 			src := strings.Join(nl, "\n") + "\n"
 			line, col := at+1, len(ins) // 1-based line for the driver; col = end of prefix
 			ans, err := drv.Ask(fmt.Sprintf("complete %s %s %d %d", lib.Hex([]byte(src)), lib.ConvTableFor([]byte(src)), line, col))
